@@ -387,7 +387,7 @@ Definition sp_nonneg (p : SP) : Prop :=
 (* what the guards of the safe wrappers establish *)
 Lemma score_guard_entered ranged p body accs :
   score_guard ranged p body = Ok (Entered accs) ->
-  accs = body /\ pM p <> 0 /\ pM p - 1 <= pwrap p /\ pM p <= pL p /\ pa p < pb p /\
+  accs = body tt /\ pM p <> 0 /\ pM p - 1 <= pwrap p /\ pM p <= pL p /\ pa p < pb p /\
   (ranged = true -> pb p + pM p - 1 <= pSR p).
 Proof.
   unfold score_guard.
